@@ -198,3 +198,7 @@ PROG += [
     (_fi(lambda P, f: iterreuse.findings(P, f)), "import typing\ndef f(entry, keywords: typing.Iterable[str]):\n    new = replace(entry, keywords=tuple(keywords))\n    raw = ' '.join(keywords)\n    return new, raw\n",
      "import typing\ndef f(entry, keywords: typing.Iterable[str]):\n    keywords = tuple(keywords)\n    new = replace(entry, keywords=keywords)\n    raw = ' '.join(keywords)\n    return new, raw\n"),
 ]
+
+FN += [
+    (lints.quantity_or_default, "import time\ndef f(t, fsobj):\n    t.mtime = fsobj.mtime or time.time()\n", "import time\ndef f(t, fsobj):\n    t.mtime = fsobj.mtime if fsobj.mtime is not None else time.time()\n"),
+]
